@@ -13,30 +13,31 @@ import (
 
 // Found is a violation together with its minimised, replayable case.
 type Found struct {
-	Property  string          `json:"property"`
-	Violation Violation       `json:"violation"`
-	Case      json.RawMessage `json:"case"`
-	Traces    [][]simrt.Ev    `json:"schedule_traces"`
-	LogHashes []string        `json:"event_log_sha256"`
-	Seed      uint64          `json:"seed"`
-	RunIndex  uint64          `json:"run_index"`
-	OrigCase  json.RawMessage `json:"unshrunk_case,omitempty"`
-	ShrinkRuns int            `json:"shrink_executions"`
-	TreeFP    string          `json:"tree_fingerprint"`
-	Tool      string          `json:"tool"`
+	Property   string          `json:"property"`
+	Violation  Violation       `json:"violation"`
+	Case       json.RawMessage `json:"case"`
+	Traces     [][]simrt.Ev    `json:"schedule_traces"`
+	LogHashes  []string        `json:"event_log_sha256"`
+	Seed       uint64          `json:"seed"`
+	RunIndex   uint64          `json:"run_index"`
+	OrigCase   json.RawMessage `json:"unshrunk_case,omitempty"`
+	ShrinkRuns int             `json:"shrink_executions"`
+	TreeFP     string          `json:"tree_fingerprint"`
+	Tool       string          `json:"tool"`
 }
 
 // WorkerResult is what one worker process reports to the parent.
 type WorkerResult struct {
-	Counters  map[string]uint64          `json:"counters"`
-	Sites     map[int32]*simrt.SiteStat  `json:"sites"`
-	Samples   []json.RawMessage          `json:"samples"`
-	Found     []Found                    `json:"found"`
-	KeyCounts map[string]uint64          `json:"key_counts"` // violations seen per class|site (incl. unshrunk)
-	Cases     uint64                     `json:"cases"`
-	Truncated bool                       `json:"truncated"`
-	Infra     string                     `json:"infra,omitempty"`
-	Distinct  string                     `json:"distinct_file"`
+	Counters  map[string]uint64         `json:"counters"`
+	Sites     map[int32]*simrt.SiteStat `json:"sites"`
+	Samples   []json.RawMessage         `json:"samples"`
+	Found     []Found                   `json:"found"`
+	KeyCounts map[string]uint64         `json:"key_counts"` // violations seen per class|site (incl. unshrunk)
+	Cases     uint64                    `json:"cases"`
+	Truncated bool                      `json:"truncated"`
+	Infra     string                    `json:"infra,omitempty"`
+	Distinct  string                    `json:"distinct_file"`
+	Digest    string                    `json:"event_log_digest"`
 }
 
 func newCtx(st *Stats, schedRoot uint64, nsched int) *Ctx {
@@ -244,6 +245,7 @@ func Worker(p Property, tier string, root, lo, hi, stride uint64, deadline time.
 		}
 	}
 	res.Counters = st.C
+	res.Digest = hex.EncodeToString(st.Digest)
 	res.Sites = st.Sites
 	// distinct set to a side file
 	if outPath != "" {
